@@ -43,6 +43,9 @@ pub struct NodeSpec {
     /// "" : dynamic leaf (PLeaf); "r": static leaf with `Option<Read<OptA>>`; "w": `Option<Write<OptB>>`
     #[serde(default)]
     pub opt: String,
+    /// Some(K): the leaf is the ZERO-SIZED system `ZLeaf<K>` (identity in slot K of the table)
+    #[serde(default, skip_serializing_if = "Option::is_none")]
+    pub z: Option<usize>,
 }
 
 /// Table of nodes, ids 1.. in preorder, root = 1 (index = id - 1): the `node` of ParSeq.tla.
@@ -305,6 +308,78 @@ impl<'a> System<'a> for OLeafW {
     }
 }
 
+// ---------------------------------------------------------------- zero-sized leaves
+
+/// Unit structs are what most users put into `par!` / `seq!`.  A zero-sized leaf cannot carry its id,
+/// accessor or context: `ZLeaf<K>` finds them in slot K of a process-wide table.
+pub const NZ: usize = 16;
+
+pub struct ZEntry {
+    pub id: usize,
+    pub acc: PAcc,
+    pub ctx: Arc<PCtx>,
+}
+
+fn ztab() -> &'static Vec<std::sync::RwLock<Option<Arc<ZEntry>>>> {
+    static T: std::sync::OnceLock<Vec<std::sync::RwLock<Option<Arc<ZEntry>>>>> = std::sync::OnceLock::new();
+    T.get_or_init(|| (0..NZ).map(|_| std::sync::RwLock::new(None)).collect())
+}
+pub fn zset(k: usize, e: Option<ZEntry>) {
+    *ztab()[k].write().unwrap_or_else(|p| p.into_inner()) = e.map(Arc::new);
+}
+fn zget(k: usize) -> Arc<ZEntry> {
+    ztab()[k].read().unwrap_or_else(|p| p.into_inner()).clone().expect("HARNESS: zero-sized leaf without a table entry")
+}
+/// Fills (clears) the slots of all zero-sized leaves of a tree.
+pub fn zfill(spec: &TreeSpec, ctx: Option<&Arc<PCtx>>) {
+    for n in spec.leaves() {
+        if let Some(k) = spec.node(n).z {
+            zset(k, ctx.map(|c| ZEntry { id: n, acc: PAcc::new(&spec.node(n).r, &spec.node(n).w), ctx: c.clone() }));
+        }
+    }
+}
+
+pub struct ZLeaf<const K: usize>;
+
+impl<'a, const K: usize> System<'a> for ZLeaf<K> {
+    type SystemData = PData<'a>;
+
+    fn run(&mut self, mut data: PData<'a>) {
+        let e = zget(K);
+        gate_run(&e.ctx, e.id, || {
+            let mut nv = Vec::with_capacity(data.w.len());
+            for f in data.w.iter_mut() {
+                f.0 = ((31 * f.0 as u64 + 7 * e.id as u64 + 1) % M) as u32;
+                nv.push(f.0);
+            }
+            json!({"ev":"finish","s":e.id,"nv":nv,"zst":K})
+        });
+    }
+
+    fn accessor<'b>(&'b self) -> AccessorCow<'a, 'b, Self> {
+        AccessorCow::Owned(zget(K).acc.clone())
+    }
+
+    fn setup(&mut self, world: &mut World) {
+        let e = zget(K);
+        e.ctx.ev(json!({"ev":"setup","s":e.id}));
+        <PData as DynamicSystemData>::setup(&e.acc, world)
+    }
+}
+
+/// `$body` with `$z` bound to `ZLeaf::<k>` for a run-time k below NZ.
+macro_rules! with_zleaf {
+    ($k:expr, |$z:ident| $body:expr) => {
+        with_zleaf!(@arms $k, $z, $body, 0 1 2 3 4 5 6 7 8 9 10 11 12 13 14 15)
+    };
+    (@arms $k:expr, $z:ident, $body:expr, $($n:literal)*) => {
+        match $k {
+            $( $n => { let $z = ZLeaf::<$n>; $body } )*
+            _ => panic!("HARNESS: zero-sized slot out of range"),
+        }
+    };
+}
+
 // ---------------------------------------------------------------- the boxing adapter
 
 pub struct DynNode(pub Box<dyn for<'a> RunWithPool<'a> + Send>);
@@ -400,6 +475,73 @@ macro_rules! chain {
     }};
 }
 
+/// Like `chain!`, but the LAST child is the un-erased zero-sized `$z` (so that the innermost
+/// `Par<H, T>` / `Seq<H, T>` of the node has a zero-sized `T`, as with unit-struct systems in `par!`).
+macro_rules! chain_z {
+    ($ctor:ident, $n:expr, $evs:expr, $z:expr, $k1:expr $(, $k:expr)*) => {{
+        let k1 = $k1;
+        let p = match catch_unwind(AssertUnwindSafe(move || $ctor::new(k1))) {
+            Ok(p) => p,
+            Err(e) => {
+                $evs.push(json!({"ev":"with","n":$n,"i":1,"out":format!("{}_in_new", panic_kind(&e))}));
+                return None;
+            }
+        };
+        #[allow(unused_mut)]
+        let mut i = 1usize;
+        $(
+            i += 1;
+            let k = $k;
+            let p = match catch_unwind(AssertUnwindSafe(move || p.with(k))) {
+                Ok(p) => {
+                    $evs.push(json!({"ev":"with","n":$n,"i":i,"out":"ok"}));
+                    p
+                }
+                Err(e) => {
+                    $evs.push(json!({"ev":"with","n":$n,"i":i,"out":panic_kind(&e)}));
+                    return None;
+                }
+            };
+        )*
+        i += 1;
+        let z = $z;
+        match catch_unwind(AssertUnwindSafe(move || p.with(z))) {
+            Ok(p) => {
+                $evs.push(json!({"ev":"with","n":$n,"i":i,"out":"ok"}));
+                Some(DynNode(Box::new(p)))
+            }
+            Err(e) => {
+                $evs.push(json!({"ev":"with","n":$n,"i":i,"out":panic_kind(&e)}));
+                None
+            }
+        }
+    }};
+}
+
+/// `kids` (erased) followed by the un-erased zero-sized leaf of slot `zk` as the last child.
+fn build_inner_z(kind: &str, n: usize, kids: Vec<DynNode>, zk: usize, evs: &mut Vec<Value>) -> Option<DynNode> {
+    let m = kids.len();
+    let mut it = kids.into_iter();
+    let mut nx = || it.next().unwrap();
+    macro_rules! arity {
+        ($ctor:ident) => {
+            with_zleaf!(zk, |z| match m {
+                1 => chain_z!($ctor, n, evs, z, nx()),
+                2 => chain_z!($ctor, n, evs, z, nx(), nx()),
+                3 => chain_z!($ctor, n, evs, z, nx(), nx(), nx()),
+                4 => chain_z!($ctor, n, evs, z, nx(), nx(), nx(), nx()),
+                5 => chain_z!($ctor, n, evs, z, nx(), nx(), nx(), nx(), nx()),
+                _ => panic!("HARNESS: fan-out {} not supported", m + 1),
+            })
+        };
+    }
+    if kind == "par" {
+        arity!(Par)
+    } else {
+        arity!(Seq)
+    }
+}
+
 fn build_inner(kind: &str, n: usize, kids: Vec<DynNode>, evs: &mut Vec<Value>) -> Option<DynNode> {
     let m = kids.len();
     let mut it = kids.into_iter();
@@ -434,19 +576,38 @@ pub fn mk_leaf(spec: &TreeSpec, n: usize, ctx: &Arc<PCtx>) -> PLeaf {
 pub fn build_tree(spec: &TreeSpec, n: usize, ctx: &Arc<PCtx>, evs: &mut Vec<Value>, log_acc: bool) -> Option<DynNode> {
     let nd = spec.node(n);
     let node = if nd.kind == "leaf" {
-        match nd.opt.as_str() {
-            "r" => DynNode(Box::new(OLeafR { id: n, ctx: ctx.clone() })),
-            "w" => DynNode(Box::new(OLeafW { id: n, ctx: ctx.clone() })),
+        match (nd.z, nd.opt.as_str()) {
+            // a zero-sized leaf that is not the last child of its node: boxed
+            (Some(k), _) => with_zleaf!(k, |z| DynNode(Box::new(z))),
+            (None, "r") => DynNode(Box::new(OLeafR { id: n, ctx: ctx.clone() })),
+            (None, "w") => DynNode(Box::new(OLeafW { id: n, ctx: ctx.clone() })),
             _ => DynNode(Box::new(mk_leaf(spec, n, ctx))),
         }
     } else {
         // `par![a, b]` evaluates a, Par::new(a), then b, .with(b): children left to right
         // (building all children first does not change which `with` calls happen or their arguments)
+        // a zero-sized leaf as the last of at least two children stays un-erased
+        let last = *nd.kids.last().unwrap();
+        let zlast = if nd.kids.len() >= 2 && spec.node(last).kind == "leaf" { spec.node(last).z } else { None };
         let mut kids = Vec::new();
         for k in &nd.kids {
+            if zlast.is_some() && *k == last {
+                if log_acc {
+                    // what the zero-sized leaf itself reports (asked through a throw-away boxed copy)
+                    let probe = with_zleaf!(zlast.unwrap(), |z| DynNode(Box::new(z)));
+                    match node_acc_checked(&probe) {
+                        Some((r, w)) => evs.push(json!({"ev":"acc","n":last,"out":"ok","r":r,"w":w})),
+                        None => evs.push(json!({"ev":"acc","n":last,"out":"panic","r":[],"w":[]})),
+                    }
+                }
+                continue;
+            }
             kids.push(build_tree(spec, *k, ctx, evs, log_acc)?);
         }
-        build_inner(&nd.kind, n, kids, evs)?
+        match zlast {
+            Some(zk) => build_inner_z(&nd.kind, n, kids, zk, evs)?,
+            None => build_inner(&nd.kind, n, kids, evs)?,
+        }
     };
     if log_acc {
         match node_acc_checked(&node) {
@@ -653,6 +814,8 @@ pub struct GenCfg {
     pub p_conflict: f64,
     /// probability that a leaf becomes a static leaf with Option<Read<OptA>> data
     pub p_opt: f64,
+    /// probability that a (dynamic) leaf is the zero-sized `ZLeaf<K>`; sometimes ALL leaves are
+    pub p_z: f64,
 }
 
 /// Random shape (preorder table) with at most `max_leaves` leaves.
@@ -662,11 +825,11 @@ pub fn gen_shape(rng: &mut StdRng, cfg: &GenCfg) -> TreeSpec {
         let leaf = depth == cfg.max_depth || *budget <= 1 || rng.gen_bool(if depth == 0 { 0.03 } else { 0.3 });
         if leaf {
             *budget = budget.saturating_sub(1);
-            out.push(NodeSpec { kind: "leaf".into(), kids: vec![], r: vec![], w: vec![], opt: String::new() });
+            out.push(NodeSpec { kind: "leaf".into(), kids: vec![], r: vec![], w: vec![], opt: String::new(), z: None });
             return id;
         }
         let kind = if rng.gen_bool(0.55) { "par" } else { "seq" };
-        out.push(NodeSpec { kind: kind.into(), kids: vec![], r: vec![], w: vec![], opt: String::new() });
+        out.push(NodeSpec { kind: kind.into(), kids: vec![], r: vec![], w: vec![], opt: String::new(), z: None });
         let fan = if rng.gen_bool(0.08) { 1 } else { rng.gen_range(2..=cfg.max_fan) };
         let mut kids = Vec::new();
         for i in 0..fan {
@@ -747,6 +910,16 @@ pub fn assign_access(rng: &mut StdRng, spec: &mut TreeSpec, cfg: &GenCfg) {
                 spec.0[l - 1].opt = "w".into();
                 spec.0[l - 1].r = vec![];
                 spec.0[l - 1].w = vec![RES_OPT_B];
+            }
+        }
+    }
+    if cfg.p_z > 0.0 {
+        let all = rng.gen_bool(0.12);
+        let mut k = 0usize;
+        for l in spec.leaves() {
+            if k < NZ && spec.node(l).opt.is_empty() && (all || rng.gen_bool(cfg.p_z)) {
+                spec.0[l - 1].z = Some(k);
+                k += 1;
             }
         }
     }
